@@ -22,6 +22,19 @@ CHECKS = {
         technique="TLA+ operator spec model-checked by TLC + TLC trace validation of recorded decoder calls", ref="6 C10"),
 }
 
+
+RING_NOTE = 'Trusted: harness virtual bus arithmetic (vbus.rs), TLC/SANY/Json module; premises of DESIGN 5.1/5.2 enforced by the driver (fault-free runs inject nothing, cold stations start together, poll period <= Tsl/4); bounds of DESIGN 5.4. Exhaustive exploration is in the layer-M model jobs listed in the evidence; beyond their constants coverage is seeded random.'
+RING_TECH = "TLA+ rule monitor (BusRules.tla) as TLC trace specification over event logs of the real stack on a byte-accurate virtual bus + TLC model checking of implementation-shaped models"
+CHECKS.update({
+    "C01": dict(text="Every transmission of every real station in seeded random ring runs (2..5 stations, all baud rates, boundary addresses, join plans, jittered polls, traffic apps) is classified by the TLA+ rule monitor (Holder / PassSupervision / Reply / Claim) and checked for overlap, 33-bit and 11-bit idle times with 1 us tolerance; TLC validates each event log against TraceBus.tla.", note=RING_NOTE, technique=RING_TECH, ref="6 C01"),
+    "C02": dict(text="Same runs: after the last population event the monitor requires agreement of all public LAS/NS/PS views plus 2N tokens in address order before the Bconv deadline (C02.converge), and rejects any later deviation (C02.stable, C02.order).", note=RING_NOTE, technique=RING_TECH, ref="6 C02"),
+    "C06": dict(text="Fault-plan runs (1..4 dropped/garbled/truncated telegrams for one or all receivers, crash incl. mid-transmission, restart, un-synchronised cold start): after FaultsEnd the monitor requires recovery (views agree, 2N ordered tokens) within Brec, then stability, single token (C06.single) and a live bus (C06.alive).", note=RING_NOTE, technique=RING_TECH, ref="6 C06"),
+    "C11": dict(text="Token acceptance (predecessor or second offer, never while listening), retry count <= 3, slot-time supervision, successor removal only when silent, never when heard - judged on every token on the wire of the ring runs from wire bytes and public views.", note=RING_NOTE, technique=RING_TECH, ref="6 C11"),
+    "C12": dict(text="Every GAP poll of the ring runs is checked against the strict (TS,NS) range, one per visit, cadence bound, successor promotion; every status reply against the replier's public view; ready only after claim or two identical rotations.", note=RING_NOTE, technique=RING_TECH, ref="6 C12"),
+    "C13": dict(text="Ring runs with traffic applications and TTR down to 256 bit: every application message cycle after the first of a visit must start before previous token receipt + TTR + one poll period.", note=RING_NOTE, technique=RING_TECH, ref="6 C13"),
+    "C15": dict(text="Instrumented applications in the ring runs: transmit call-backs only for the wire holder with no request outstanding, exactly one matching reply/time-out per request, reply form, round-robin order modulo number of apps, no second turn after decline.", note=RING_NOTE, technique=RING_TECH, ref="6 C15"),
+})
+
 ALL = ["C%02d" % i for i in range(1, 21)]
 
 
